@@ -45,6 +45,13 @@ theorem swapIn_k_formula (total a rin rout fee : Nat) (ht : total ≤ M)
     rin * rout ≤ (rin + (a - fee)) * (rout - amountOut total a rin rout) :=
   swapIn_k total a rin rout fee ht hfee ho
 
+/-- …and likewise never a well-formed fixed-output swap: the `+1` in the charge covers any
+    fee up to the total fee -/
+theorem swapOut_k_formula (total out rin rout fee : Nat) (ht : total < M) (ho : out < rout)
+    (hfee : fee * M ≤ amountIn total out rin rout * total) :
+    rin * rout ≤ (rin + (amountIn total out rin rout - fee)) * (rout - out) :=
+  swapOut_k total out rin rout fee ht ho hfee
+
 /-- no sequence of swaps returns more than was put in: over any history consisting of swaps
     only (by any callers), what the swappers net of each token is bounded by what the reserves
     lose, and they cannot end with at least as much of both tokens and strictly more of one -/
